@@ -161,4 +161,12 @@ theorem enterLoop_cb (c : Cfg) (s0 : St) (evs : List TEv) (ds : List Dial) :
   simp [cbOnly]
 
 
+/-- the Spec trace of a connection starts with the opening callback (when it is set) at the tick of the dial -/
+theorem expectedConn_head (has : Cb → Bool) (plan : Cb → List Act) (cnt : Cb → Nat) (t0 : Nat) (first : Cb)
+    (evs : List TEv) (h : has first = true) :
+    ∃ rest, Spec.AppTrace.expectedConn has plan cnt t0 first evs = (t0, .cb first []) :: rest := by
+  simp only [Spec.AppTrace.expectedConn, h, ↓reduceIte, List.singleton_append, Spec.AppTrace.reportTrace]
+  split <;> exact ⟨_, rfl⟩
+
+
 end WS.Lemmas.App
